@@ -10,6 +10,7 @@ import Iavl.Model.KV
 import Iavl.Model.ReadCost
 import Iavl.Model.Ics23
 import Iavl.Model.ProofGen
+import Iavl.Model.Flusher
 /-
   The executable face of the model: a line-protocol interpreter that answers every operation of a
   history with exactly the definitions the theorems are about (`VTree.step`, `hashNode`, `mkProof`,
@@ -401,6 +402,18 @@ partial def exec (x : XState) (args : List String) : XState × String :=
   match args with
   | "new" :: _ :: "legacy" :: _ => ({ init with opened := true }, "ok")   -- the legacy library starts on an empty store
   | "new" :: _ => (init, "ok")
+  | ["flushcheck", thr, sizes] =>
+    -- the physical writes `BatchWithFlusher` makes of a sequence of operations given by their sizes
+    -- (`s<key length>+<value length>` / `d<key length>`), as chunk lengths (empty writes are not recorded)
+    let ops : List BOp := (sizes.splitOn ",").filterMap fun tok =>
+      if tok.startsWith "s" then
+        match (tok.drop 1).toString.splitOn "+" with
+        | [a, b] => some (.set (List.replicate a.toNat! 0) (List.replicate b.toNat! 0))
+        | _ => none
+      else if tok.startsWith "d" then some (.del (List.replicate (tok.drop 1).toString.toNat! 0))
+      else none
+    let chunks := (flushSplit thr.toNat! ops).filter (fun c => !c.isEmpty)
+    (x, "chunks=" ++ ",".intercalate (chunks.map fun c => toString c.length))
   | "vex" :: _ => (x, icsVerify args)
   | "vnon" :: _ => (x, icsVerify args)
   | ["adopt"] =>
